@@ -221,7 +221,7 @@ def decide(prop: str, vres: dict, kani: dict, tier: str, seed: int, t0: float, m
         if h['status'] == 'failed':
             f = {'fn': h.get('fn'), 'class': 'kani', 'label': h['name'], 'site_text': h.get('failed_checks', '')[:200],
                  'clause_text': '', 'message': 'Kani harness %s failed' % h['name'], 'rendered': h.get('output_tail', ''),
-                 'file': h.get('file'), 'cex': h.get('cex')}
+                 'file': h.get('file'), 'cex': h.get('cex'), 'replay': h.get('replay')}
             k = match_known(f, known)
             if k is not None and prop in k.get('properties', [prop]):
                 known_hits.append((k, f, 'kani:' + h['name']))
@@ -255,7 +255,9 @@ def decide(prop: str, vres: dict, kani: dict, tier: str, seed: int, t0: float, m
                        'failing_expression': f.get('site_text'), 'clause': f.get('clause_text'),
                        'verifier_message': f.get('message'), 'verifier_output': f.get('rendered'),
                        'counterexample': cex,
-                       'note': 'obligation discharged on the pinned tree and failing on this tree' if not cex else 'counterexample from Kani concrete playback'},
+                       'counterexample_replayed_on_real_code': f.get('replay'),
+                       'note': 'obligation discharged on the pinned tree and failing on this tree' if not cex else
+                               'counterexample from Kani concrete playback; `counterexample_replayed_on_real_code` is the result of running that generated unit test against the real (scratch-copied) crate'},
                       fh, indent=1)
         lines.append('VIOLATION property=%s replay=%s%s' % (prop, rp, '' if cex else ' no-failing-input-found'))
         exit_code = 1
